@@ -35,6 +35,11 @@ def run(rep, tier, seed):
                 case_compress(b, pd, rule, d, klass='compress-after-edit:' + stack)
                 case_compress(b, pd, rule, rnd.choice([DI.UP, DI.DOWN]), klass='compress-after-edit:' + stack)
         case_compress(b, pd, no_compression_rule(randbits(rnd, rnd.randint(1, 16)), rnd.choice([L, R])), None, klass='no-compression:' + stack)
+        if i % 4 == 0:
+            # a rule of fragmentation nature handed to compress (no manager ever selects it): the bare rule id, whatever descriptors it carries
+            from microschc.rfc8724 import RuleDescriptor as _RD, RuleNature as _RN
+            fr = _RD(id=mk(randbits(rnd, rnd.randint(1, 16)), rnd.choice([L, R])), nature=_RN.FRAGMENTATION, field_descriptors=rule.field_descriptors if i % 8 == 0 else [])
+            case_compress(b, pd, fr, rnd.choice([None, DI.UP]), klass='fragmentation-rule:' + stack)
     for i in range(1500 if tier == 'quick' else 15000):
         rule, vals = synth_case(rnd)
         pd = synth_pdesc(rule, vals, payload_variants(rnd))
